@@ -606,7 +606,7 @@ theorem step_inv2 (sp : Spec) (w : World) (ev : Event) (hpc : PausedClean w) (h 
           · split
             · exact same _ _ _ id id
             · split
-              · exact same _ _ _ id id
+              · exact Inv2.checkAffected sp _ _ (same _ _ _ id id)
               · split
                 · exact same _ _ _ id id
                 · exact set_inc _ _ _ running_incomplete
